@@ -269,7 +269,8 @@ def units(tier):
             for caching in ((False, True) if th else (True,)):
                 us.append(Unit('abb/%s-%s/%s-%s/%s' % (pa, pb, s1, s2, 'cache' if caching else 'nocache'),
                                lambda ctx, pa=pa, pb=pb, s1=s1, s2=s2, c=caching: h_abb(ctx, pa, pb, s1, s2, c),
-                               must_cover=('third-decodes', 'third-is-treat-as-withdraw') if pb == 'origin' else ('third-decodes',),
+                               # the `comm` shape carries a 4-octet AGGREGATOR: on a 2-octet session it never decodes
+                               must_cover=(('third-decodes', 'third-is-treat-as-withdraw') if pb == 'origin' else ('third-decodes',) if s2 == 'asn4' else ()),
                                hash_const=True, reset=reset_all, weight=20, max_seconds=600))
     for (p1, p2) in PAIRS:
         for (s1, s2) in SESSION_PAIRS:
